@@ -334,6 +334,21 @@ def lock_templates():
             lock = [["key", ka, "c"], ["op", V.OP_CHECKSIG], ["op", V.OP_SWAP if False else V.OP_VERIFY], emb, ["key", kb, "c"], ["op", V.OP_CHECKSIG]]
         return lock, [sa]
 
+    def sig_copy(k, ht, where, verify_op):
+        # the lock script pushes (and drops) a byte-identical copy of the very signature the unlocking side supplies:
+        # before an executed separator the copy is outside the hashed code and must not be searched for; after it (or
+        # without one) FindAndDelete removes it from the hashed code
+        S, D = ["op", V.OP_CODESEPARATOR], ["op", V.OP_DROP]
+        tail = [["key", k, "c"], ["op", V.OP_CHECKSIGVERIFY], ["n", 1, "opn"]] if verify_op else [["key", k, "c"], ["op", V.OP_CHECKSIG]]
+        if where == 0:       # copy, then separator
+            return [["sig", k, ht, "ok", 1], D, S] + tail, [["sig", k, ht, "ok", -2]]
+        if where == 1:       # separator, then copy
+            return [S, ["sig", k, ht, "ok", 1], D] + tail, [["sig", k, ht, "ok", -2]]
+        if where == 2:       # no separator
+            return [["sig", k, ht, "ok", 0], D] + tail, [["sig", k, ht, "ok", -1]]
+        # copies on both sides of the separator
+        return [["sig", k, ht, "ok", 1], D, S, ["sig", k, ht, "ok", 1], D] + tail, [["sig", k, ht, "ok", -2]]
+
     def sep_templates(ka, kb, hta, htb, shape_, cond, bad):
         # OP_CODESEPARATOR in the middle of a script, doubled, and inside executed / unexecuted branches: each signature
         # operation hashes the script from the last *executed* separator
@@ -381,6 +396,7 @@ def lock_templates():
                   st.sampled_from(["opn", "opn", "opn", "min", "p1"]), st.sampled_from([False, False, True])),
         st.builds(embedded, ks, ht, st.booleans()),
         st.builds(sep_templates, ks, ks, STD_HT, STD_HT, st.integers(0, 4), st.booleans(), st.sampled_from([0, 0, 0, 1, 2])),
+        st.builds(sig_copy, ks, STD_HT, st.integers(0, 3), st.booleans()),
         st.builds(two_sigops, ks, ks, STD_HT, weighted((2, st.just(1)), (1, STD_HT)), st.integers(0, 2), st.sampled_from([False, False, False, True])),
         st.builds(msig_partial, st.integers(2, 5), st.integers(1, 4), st.integers(0, 15),
                   st.lists(st.sampled_from(["empty", "empty", "wrongkey", "wrongmsg", "highs"]), min_size=1, max_size=2), STD_HT,
